@@ -46,3 +46,34 @@ Fixpoint prefix_eqb (f : nat -> option Q) (i : nat) (l : list (option Q)) : bool
   end.
 
 Definition jit_of (l : list Z) (i : nat) : Z := nth i l 100%Z.
+
+(* ---- _ReconnectionHandler (cassandra/pool.py): how a schedule is consumed ----
+   start(): first_delay = next(schedule) (StopIteration on an empty schedule: None here), schedule run().
+   run(): try_reconnect; on failure next_delay = next(schedule) (None when exhausted); on_exception decides whether to
+   continue (False for authentication failures); when next_delay is None the series ends, otherwise run() is scheduled
+   again after next_delay.  A delay of 0 is a delay like any other. *)
+Inductive attempt := AFail | AAuthFail | ASucceed.
+
+Fixpoint handler_run (sched : list Q) (outcomes : list attempt) : list Q :=
+  match outcomes with
+  | nil => nil
+  | AFail :: os => match sched with nil => nil | d :: r => d :: handler_run r os end
+  | AAuthFail :: _ => nil
+  | ASucceed :: _ => nil
+  end.
+
+(* delays passed to scheduler.schedule, in order; None = start() raised *)
+Definition handler (sched : list Q) (outcomes : list attempt) : option (list Q) :=
+  match sched with
+  | nil => None
+  | d0 :: r => Some (d0 :: handler_run r outcomes)
+  end.
+
+Fixpoint listQ_eqb (a b : list Q) : bool :=
+  match a, b with
+  | nil, nil => true
+  | x :: a', y :: b' => Qeq_bool x y && listQ_eqb a' b'
+  | _, _ => false
+  end.
+Definition optlistQ_eqb (a b : option (list Q)) : bool :=
+  match a, b with Some x, Some y => listQ_eqb x y | None, None => true | _, _ => false end.
